@@ -224,6 +224,7 @@ def run(tier, seed):
     ok_obl = ck.obligations(PROP, clean=False)
     rng = ck.rng
 
+    ck.log("obligations done")
     # ---------------- hook-level correspondence
     gvp, err = ck.build_gvh(pkg="./cmd/gvh-pool", name="gvh-pool_verif")
     oracle = ck.build_oracle("pool") if gvp else None
@@ -299,6 +300,7 @@ def run(tier, seed):
             if lines and impl:
                 ck.sample({"hook": mode, "history": lines[1][:200], "impl": impl[1].split(" ", 1)[1][:200]})
 
+    ck.log("hook-level done")
     # ---------------- cross-configuration
     bins = {}
     excluded = {}
@@ -316,17 +318,18 @@ def run(tier, seed):
     for name in excluded:
         ck.violation("configuration %s does not build: the option changes behaviour in the strongest way" % name,
                      {"kind": "build", "configuration": name, "stderr": excluded[name]}, no_input=True)
+    ck.log("configurations built: %s" % sorted(bins))
     programs = []
     corpus = os.path.join(vlib.VERIF, "corpus", "C14")
     if os.path.isdir(corpus):
         for fn in sorted(os.listdir(corpus)):
             if fn.endswith(".lua"):
                 programs.append(("corpus:" + fn, open(os.path.join(corpus, fn)).read()))
-    reps = 6 if tier == "quick" else 60
+    reps = 10 if tier == "quick" else 60
     for t in TEMPLATES:
         for _ in range(reps):
             programs.append(t(rng))
-    nrand = 200 if tier == "quick" else 6000
+    nrand = 600 if tier == "quick" else 6000
     for _ in range(nrand):
         programs.append(rand_program(rng))
     lines = [lua_line("P%d" % i, src) for i, (_, src) in enumerate(programs)]
@@ -336,6 +339,7 @@ def run(tier, seed):
         futs = {name: ex.submit(vlib.run_lines_resilient, b, ["lua"], lines, 60) for name, b in bins.items()}
         for name, fu in futs.items():
             outs[name] = fu.result()
+    ck.log("%d programs run on %d configurations" % (len(programs), len(bins)))
     base = outs["default"]
     cross_fail = 0
     for i, (kind, src) in enumerate(programs):
